@@ -250,4 +250,46 @@ def contains (loc : Bool) (raw : Raw) (g p : Str) : Except Err Bool :=
   | .error e => .error e
   | .ok () => .ok (rawHas raw (absName g p))
 
+/-! ## Rows of the method table extracted from `wrappers.py` (see `harness/translate.py`)
+
+`userPaths`: the user-controlled path variables of the method body (every variable handed to
+`_guard_path`, plus every variable that reaches `self.__wrapped__` without being covered by a
+guard and without being bookkeeping-internal); `guarded`: those covered by a `_guard_path` call
+that dominates their first use on `__wrapped__` (or sits under `if isinstance(v, str)`);
+`rawUses`: every argument handed to `__wrapped__` with its class (`guarded`, `internal` = derived
+from `.meta._base_dir`, `node` = taken from a node object, `callback`, `unguarded`);
+`uncoveredParams`: path-named parameters that reach `__wrapped__` unguarded; `shape`: the
+guard sequence before the first access to `__wrapped__`, over the positions of `userPaths`. -/
+structure GMethod where
+  cls : String
+  name : String
+  params : List String
+  userPaths : List String
+  guarded : List String
+  uncoveredParams : List String
+  rawUses : List (String × String)
+  touchesRaw : Bool
+  wraps : Bool
+  listing : Bool
+  filters : Bool
+  delegates : List String
+  shape : MethodShape
+deriving Repr
+
+def GMethod.guardsAllPaths (m : GMethod) : Bool :=
+  m.shape.guardsAllPaths && m.uncoveredParams.isEmpty &&
+  (m.rawUses.all fun r => r.2 != "unguarded") &&
+  (m.userPaths.all fun v => m.guarded.contains v) &&
+  m.shape.nargs == m.userPaths.length &&
+  m.shape.pathArgs == List.range m.userPaths.length
+
+/-- listing methods either filter on `is_internal_path` themselves or only delegate to
+other listing methods of `self` -/
+def listingNames : List String :=
+  ["items", "values", "keys", "__iter__", "__len__", "__reversed__", "visit", "visititems"]
+
+def GMethod.listingFiltered (m : GMethod) : Bool :=
+  !m.listing || m.filters ||
+  (!m.touchesRaw && !m.delegates.isEmpty && m.delegates.all fun d => listingNames.contains d)
+
 end MetadorModel.Paths
